@@ -149,6 +149,9 @@ func (c *Ctx) mapKeySort(mt *types.Map) string {
 }
 
 func (c *Ctx) mapKey(mt *types.Map, k Val) Term {
+	if k.K == KKey {
+		return k.T
+	}
 	if isString(mt.Key()) {
 		return c.strKey(k)
 	}
